@@ -109,23 +109,27 @@ uint64_t cmb_wtdsummary_add(struct cmb_wtdsummary *wsp,
     dsp->min = (x < dsp->min) ? x : dsp->min;
     dsp->count++;
 
+    /* Work with the weight fractions r1 + r2 = 1 rather than with products
+     * and powers of the raw weights, which leave the range of a double for
+     * weight units far from one (w1 * w2 underflows, (d / ws)^3 overflows) */
     const double w1 = wsp->wsum;
     const double w2 = w;
     const double ws = w1 + w2;
+    const double r1 = w1 / ws;
+    const double r2 = w2 / ws;
+    const double w12 = w1 * r2;
     const double d21 = x - dsp->m1;
-    const double d21_w = d21 / ws;
-    const double d21_w_2 = d21_w * d21_w;
-    const double d21_w_3 = d21_w * d21_w_2;
+    const double d21_2 = d21 * d21;
 
-    const double tmp_m1 = dsp->m1 + w2 * d21_w;
-    const double tmp_m2 = dsp->m2 + w1 * w2 * d21 * d21_w;
+    const double tmp_m1 = dsp->m1 + r2 * d21;
+    const double tmp_m2 = dsp->m2 + w12 * d21_2;
     const double tmp_m3 = dsp->m3
-                         + w1 * w2 * (w1 - w2) * d21 * d21_w_2
-                         - 3.0 * w2 * dsp->m2 * d21_w;
+                         + w12 * (r1 - r2) * d21_2 * d21
+                         - 3.0 * r2 * dsp->m2 * d21;
     const double tmp_m4 = dsp->m4
-                         + w1 * w2 * (w1 * w1 - w1 * w2 + w2 * w2) * d21 * d21_w_3
-                         + 6.0 * w2 * w2 * dsp->m2 * d21_w_2
-                         - 4.0 * w2 * dsp->m3 * d21_w;
+                         + w12 * (r1 * r1 - r1 * r2 + r2 * r2) * d21_2 * d21_2
+                         + 6.0 * r2 * r2 * dsp->m2 * d21_2
+                         - 4.0 * r2 * dsp->m3 * d21;
 
     dsp->m1 = tmp_m1;
     dsp->m2 = tmp_m2;
@@ -174,25 +178,27 @@ uint64_t cmb_wtdsummary_merge(struct cmb_wtdsummary *tgt,
         return 0u;
     }
 
+    /* Weight fractions instead of raw weights, see cmb_wtdsummary_add */
     const double w1 = ws1->wsum;
     const double w2 = ws2->wsum;
     const double ws = w1 + w2;
+    const double r1 = w1 / ws;
+    const double r2 = w2 / ws;
+    const double w12 = w1 * r2;
     const double d21 = dsp2->m1 - dsp1->m1;
-    const double d21_w = d21 / ws;
-    const double d21_w_2 = d21_w * d21_w;
-    const double d21_w_3 = d21_w * d21_w_2;
+    const double d21_2 = d21 * d21;
 
     tws.wsum = ws;
-    ts->m1 = dsp1->m1 + w2 * d21_w;
+    ts->m1 = dsp1->m1 + r2 * d21;
     ts->m2 = dsp1->m2 + dsp2->m2
-                      + w1 * w2 * d21 * d21_w;
+                      + w12 * d21_2;
     ts->m3 = dsp1->m3 + dsp2->m3
-                      + w1 * w2 * (w1 - w2) * d21 * d21_w_2
-                      + 3.0 * (w1 * dsp2->m2 - w2 * dsp1->m2) * d21_w;
+                      + w12 * (r1 - r2) * d21_2 * d21
+                      + 3.0 * (r1 * dsp2->m2 - r2 * dsp1->m2) * d21;
     ts->m4 = dsp1->m4 + dsp2->m4
-                      + w1 * w2 * (w1 * w1 - w1 * w2 + w2 * w2) * d21 * d21_w_3
-                      + 6.0 * (w1 * w1 * dsp2->m2 + w2 * w2 * dsp1->m2) * d21_w_2
-                      + 4.0 * (w1 * dsp2->m3 - w2 * dsp1->m3) * d21_w;
+                      + w12 * (r1 * r1 - r1 * r2 + r2 * r2) * d21_2 * d21_2
+                      + 6.0 * (r1 * r1 * dsp2->m2 + r2 * r2 * dsp1->m2) * d21_2
+                      + 4.0 * (r1 * dsp2->m3 - r2 * dsp1->m3) * d21;
 
     *tgt = tws;
     return ts->count;
